@@ -6,7 +6,8 @@ from .common import bump
 ID = "C09"
 AREA = "c09"
 LEAN_PROPS = "Litep2pVerif.Props.C09"
-THEOREMS = ["held_not_closed", "idle_closed_at_partial", "ping_no_prolong", "primary_secondary"]
+THEOREMS = ["held_not_closed", "idle_closed_at_partial", "ping_no_prolong", "primary_secondary",
+            "inbound_negotiation_holds_connection"]
 CONSTS = ["KEEP_ALIVE_TIMEOUT_SECS"]
 CONST_TABLE = [
     ("KEEP_ALIVE_TIMEOUT_SECS", "src/transport/mod.rs",
@@ -16,20 +17,28 @@ MANIFEST = {
     "text": "Lean 4 theorems about an operational model of the keep-alive mechanism (ConnectionHandle Active/Inactive, "
             "Permit, KeepAliveTracker with lazily started timers, the multiset of strong senders of a connection's command "
             "channel and the loop-exit rule): held_not_closed, idle_closed_at_partial (exact close time = max over protocols "
-            "of last activity + T, assuming every protocol is polled at that time), ping_no_prolong, primary_secondary. Tie: "
+            "of last activity + T, assuming every protocol is polled at that time), ping_no_prolong, primary_secondary, and on the "
+            "connection task's side (Model/Conn/Permits.lean: the TcpConnection loop with every strong sender explicit) "
+            "inbound_negotiation_holds_connection: the permit is taken when an inbound substream is accepted and stays with it "
+            "through negotiation, delivery and the substream's life, disabling the idle exit. Tie: the REAL TcpConnection::start "
+            "loop over loopback TCP with remote substreams whose negotiation is stretched across the expiry of every handle "
+            "(tcploop area, checker mode), and "
             "several real TransportServices (keep-alive Yes/No) sharing real ProtocolSets run under a paused tokio clock "
             "(logical milliseconds) against the model's executable definitions, state compared after every drain (handle "
             "activity, last_activity, timer count, which connections still have a strong sender), plus a property-level "
             "oracle on close times.",
     "note": "Trusted: Lean kernel; axioms propext/Classical.choice/Quot.sound; the hand-written model and its tie; tokio's "
-            "paused clock and mpsc strong/weak sender semantics; the adapter plays the TCP connection task and mimics its "
-            "three-line permit rule (lifetime_permit = keep_alive.then(..)); the logical-clock override of Instant::now in "
+            "paused clock and mpsc strong/weak sender semantics; the c09 adapter plays the TCP connection task under logical "
+            "time, while the connection task's permit rules (permit at accept, lifetime_permit = keep_alive.then(..)) are tied to "
+            "the real loop by the tcploop area; the logical-clock override of Instant::now in "
             "KeepAliveTracker (guarded hook). Real-time behaviour (timer accuracy, scheduler latency) is outside the model.",
     "technique": "Lean 4 proof (invariants of the tracker and of the strong-sender count) + model/implementation "
                  "correspondence under logical time + property-level oracle",
     "design_ref": "DESIGN.md §7 C09",
 }
-RULE = ("seeded schedules over 1-3 protocols (keep-alive Yes/No mixes), timeouts 40/100/250 ms, 2 peers with up to two "
+RULE = ("tcploop: fixed, negotiation-spanning (inbound header-only / stalled outbound across the release of every handle), race "
+        "and seeded random operation sequences on the real TcpConnection loop, observations checked against the permit-aware "
+        "model; c09: seeded schedules over 1-3 protocols (keep-alive Yes/No mixes), timeouts 40/100/250 ms, 2 peers with up to two "
         "overlapping connections: establishment, opens by every protocol, command receipt, success/failure answers, "
         "inbound substreams, substreams held across several periods and dropped, time steps before/at/after every "
         "deadline (T-1, T, T+1, multiples), closes; a case is non-trivial if some connection was seen alive, later seen "
@@ -38,7 +47,11 @@ TRUSTED_BASE = ["Lean 4.33 kernel", "axioms: propext, Classical.choice, Quot.sou
                 "hand-written model Model/Service/KeepAlive.lean tied to transport_service.rs/connection.rs/protocol_set.rs by this run",
                 "adapter /repo/src/verif/c09.rs, logical clock hook (crate::verif::logical_now), harness (tokio test-util), verif.py, checks/c09.py",
                 "tokio paused clock: sleep completes exactly at its deadline once time is advanced; mpsc WeakSender::upgrade succeeds iff a strong sender exists",
-                "the connection task's permit rule (tcp/connection.rs handle_negotiated_substream) is mimicked by the adapter"]
+                "the connection task's permit rules (tcp/connection.rs handle_yamux_substream: permit at accept; "
+                "handle_negotiated_substream: lifetime permit for keep-alive protocols) are tied to the REAL TcpConnection::start "
+                "loop by the tcploop area (adapter /repo/src/verif/tcploop.rs, model Model/Conn/Permits.lean, checks/tcploop.py); "
+                "the c09 adapter still plays the connection task for the logical-time schedules and follows the same rules",
+                "tcploop: quiescence detected through TCP_INFO byte counters and waker flags; select! branch choice sampled"]
 ASSUMPTIONS = ["connection ids are unique, so the tracker key (peer, connection) is represented by the connection id",
                "protocols poll their TransportService after calling open_substream (the protocol's event loop does); the "
                "oracle checks the upper bound on the close time only on schedules where this holds"]
@@ -402,3 +415,23 @@ def nontrivial(case, out):
 
 def matches_known(k, v):
     return False
+
+
+# ---------------------------------------------------------------- the real event loop (engine: extra_cases)
+# The c09 adapter plays the connection task. The `tcploop` area drives the REAL `TcpConnection::start` loop over
+# loopback TCP (remote substreams whose negotiation is stretched over the expiry of every handle, stalled outbound
+# opens, messages in flight) and ties it to Model/Conn/Permits.lean, where the permit of an inbound substream is taken
+# at accept time. Judged here by the property-level oracle `tcploop.oracle_c09`.
+def extra_cases(rng, tier):
+    from . import tcploop
+    yield "TCPLOOP", tcploop.gen_cases(rng, tier, focus="C09")
+
+
+def oracle_extra(xpid, case, out):
+    from . import tcploop
+    return [dict(v, msg="(real TcpConnection loop, tcploop area) " + v["msg"]) for v in tcploop.oracle_c09(case, out)]
+
+
+def stats_extra(xpid, case, out, acc):
+    from . import tcploop
+    tcploop.stats(case, out, acc)
